@@ -52,6 +52,11 @@ def run(chk):
     from harness.drivers import engine_traces as et
     from harness.programs import scenarios as sc
     items = eg.collect(chk, ["wait"], max_ext=3)
+    # a one-worker step whose invocations wait one after the other under ONE waiter id (each returns None after its wait)
+    items += [it for it in eg.collect(chk, ["wait_queue"], max_ext=3, paths_q=20, walks_q=5, paths_t=100, walks_t=20)
+              if it[0].startswith("waiter_queue")]
+    # ... and a step that is invoked AGAIN after its wait has completed and it has returned None
+    items += eg.collect(chk, ["rewait"], max_ext=4, paths_q=40, walks_q=10, paths_t=200, walks_t=40, depth=14)
     # "... also after the run was serialized and resumed": snapshot while the step is suspended in its wait, resume,
     # then answer (requirements are not serialised; the waiter is re-established by re-running the step)
     rng = random.Random(chk.seed)
